@@ -137,6 +137,16 @@ func genC02(tier string) []Scenario {
 			}
 		}
 	}
+	// one batch node run four times, its budget switched back and forth in between (A, B, A, B)
+	for _, c := range []int{0, 2} {
+		for _, ab := range [][2]int{{1, 3}, {3, 1}, {2, 4}} {
+			sc := batchScn{name: fmt.Sprintf("retry-batch-item budgets %d,%d,%d,%d over four runs n=1 c=%d", ab[0], ab[1], ab[0], ab[1], c), n: 1, c: c, budget: ab[0], fb: true,
+				budgetByRun: []int{ab[0], ab[1], ab[0], ab[1]}, runs: 4,
+				shape: shResults, yield: false, execMenu: func(i, k int) []answer { return []answer{{err: itemErr(i, k)}} }, // every attempt fails: the count IS the budget
+				fbMenu: func(i int) []answer { return fbOkOrErr(i)[:1] }, postMenu: postX, bound: 0, chkPerItem: true}
+			out = append(out, sc.scenario())
+		}
+	}
 	// an item that prep hands out as an error Result is still an item: it gets its attempts too
 	for _, c := range []int{0, 2} {
 		for _, fb := range []bool{false, true} {
